@@ -1,6 +1,6 @@
 (* C07 — shape of the generated cases and the two executable verdicts. No proofs. *)
 From VLib Require Import CaseLib.
-From C07 Require Import Model ModelFiles.
+From C07 Require Import Model ModelFiles ModelPool.
 
 (* the code as it is now: all-token queued last (a28a3f7), fetch guard (5d51c58), suicided proxy answers Info (716fc27) *)
 Definition cur_ver : version := mkVer true true true.
@@ -13,7 +13,12 @@ Inductive case :=
 (* the same with the fraction options frac.Config{SkipSortDocs, KeepMetaFile} the store ran with, and per label the
    file / descriptor state of every fraction as observed on the real process after the step (ModelFiles.res_code) *)
 | CSchedF (skip keep : bool) (wb : list (list bulk)) (qs : list qspec) (ls : list label) (os : list obs)
-          (fs : list (list N)).
+          (fs : list (list N))
+(* the same with, per fraction, the block offsets its docBlocksWriter wrote (wr: Sealed.BlocksOffsets as first seen, at
+   seal.swapped) and per label the Sealed.BlocksOffsets of every installed sealed fraction as they are in memory after
+   the step (ModelPool) *)
+| CSchedP (skip keep : bool) (wb : list (list bulk)) (qs : list qspec) (ls : list label) (os : list obs)
+          (fs : list (list N)) (wr : list (list N)) (ps : list (list (list N))).
 
 Definition optN_eqb := option_eqb N.eqb.
 Definition obs_eqb (a b : obs) : bool :=
@@ -26,6 +31,31 @@ Definition obs_eqb (a b : obs) : bool :=
   | _, _ => false
   end.
 
+(* the pool layer driven by the schedule: the seal of fraction g fills a pooled writer at seal.idle -> seal.built (hook
+   32) - reusing the writer put back last when there is one, as sync.Pool does on one P; by
+   Props.C07_sealed_offsets_private the tables do not depend on that choice - and the sealed fraction (with its table)
+   is installed at seal.swapped (hook 33) *)
+Fixpoint prun (skip : bool) (wr : list (list N)) (st : pstate) (vis : list nat) (nfr : nat)
+         (ls : list label) (os : list obs) : list (list (list N)) :=
+  match ls, os with
+  | l :: lr, o :: or =>
+      let st' := match l, o with
+                 | LM g, OHook h =>
+                     if N.eqb h 32
+                     then pstep true st (if skip then PAdopt (N.to_nat g) (nth (N.to_nat g) wr [])
+                                         else PSeal (N.to_nat g) (nth (N.to_nat g) wr []) (Some 0))
+                     else st
+                 | _, _ => st
+                 end in
+      let vis' := match l, o with LM g, OHook h => if N.eqb h 33 then N.to_nat g :: vis else vis | _, _ => vis end in
+      let nfr' := match l, o with LRot, OUnit => S nfr | _, _ => nfr end in
+      map (fun g => if memn g vis' then match table_of st' g with Some t => t | None => [] end else []) (seq 0 nfr')
+      :: prun skip wr st' vis' nfr' lr or
+  | _, _ => []
+  end.
+
+Definition llN_eqb := list_eqb (list_eqb N.eqb).
+
 (* model output = implementation output *)
 Definition case_agrees (c : case) : bool :=
   match c with
@@ -37,6 +67,12 @@ Definition case_agrees (c : case) : bool :=
       Nat.eqb (length os) (length fs)
       && list_eqb (fun a b => obs_eqb (fst a) (fst b) && list_eqb N.eqb (snd a) (snd b))
                   (xrun (mkOpts skip keep false) cfg (xinit cfg nreaders) ls) (combine os fs)
+  | CSchedP skip keep wb qs ls os fs wr ps =>
+      let cfg := mkCfg cur_ver wb qs in
+      Nat.eqb (length os) (length fs)
+      && list_eqb (fun a b => obs_eqb (fst a) (fst b) && list_eqb N.eqb (snd a) (snd b))
+                  (xrun (mkOpts skip keep false) cfg (xinit cfg nreaders) ls) (combine os fs)
+      && list_eqb llN_eqb (prun skip wr pinit [] 1 ls os) ps
   end.
 
 (* ------------------------------------------------------------------------------------------------
@@ -213,11 +249,33 @@ Fixpoint frun (gh : fghost) (ls : list label) (os : list obs) (fs : list (list N
   | _, _, _ => false
   end.
 
+(* block-offset part of the spec checker, without the pool model: after EVERY step the table of every installed
+   sealed fraction is the one its seal wrote (as first seen), and that one names pairwise distinct block starts (with SkipSortDocs
+   they are the active fraction's, in block-registration order, not ascending) *)
+Fixpoint distinctN (l : list N) : bool :=
+  match l with
+  | x :: r => negb (memN x r) && distinctN r
+  | [] => true
+  end.
+
+Fixpoint pspec (wr : list (list N)) (vis : list nat) (ls : list label) (os : list obs) (ps : list (list (list N))) : bool :=
+  match ls, os, ps with
+  | [], [], [] => true
+  | l :: lr, o :: or, p :: pr =>
+      let vis' := match l, o with LM g, OHook h => if N.eqb h 33 then N.to_nat g :: vis else vis | _, _ => vis end in
+      forallb (fun g => list_eqb N.eqb (nth g p []) (nth g wr []) && distinctN (nth g wr [])
+                        && negb (Nat.eqb (length (nth g wr [])) 0)) vis'
+      && pspec wr vis' lr or pr
+  | _, _, _ => false
+  end.
+
 (* implementation output satisfies the property *)
 Definition case_spec_ok (c : case) : bool :=
   match c with
   | CSched wb qs ls os => grun wb qs (ghost0 wb) ls os
   | CSchedF _ _ wb qs ls os fs => grun wb qs (ghost0 wb) ls os && frun (mkFG 1 0 []) ls os fs
+  | CSchedP _ _ wb qs ls os fs wr ps =>
+      grun wb qs (ghost0 wb) ls os && frun (mkFG 1 0 []) ls os fs && pspec wr [] ls os ps
   end.
 
 Definition diff_indices (l : list case) : list nat := bad_indices (fun c => negb (case_agrees c)) l.
